@@ -207,6 +207,52 @@ func checkC20(P *core.Program, R *core.Report) {
 				}
 			}
 			dn, whole := coinDenomValues(ff, coins)
+			if !full && len(dn) > 0 && len(whole) == 0 {
+				// NewCoin(order.X.Denom, order.X.Amount): the same coin spelled by its two fields
+				full = true
+				v := ff.Fwd(coins)
+				var coinCalls []*ssa.Call
+				if e, ok := core.SliceLiteral(v); ok {
+					for _, x := range e {
+						if c, ok := ff.Fwd(x).(*ssa.Call); ok {
+							coinCalls = append(coinCalls, c)
+						}
+					}
+				} else if call, ok := v.(*ssa.Call); ok && core.CalleeName(call.Common()) == "NewCoins" && len(call.Common().Args) == 1 {
+					if e, ok := core.SliceLiteral(ff.Fwd(call.Common().Args[0])); ok {
+						for _, x := range e {
+							if c, ok := ff.Fwd(x).(*ssa.Call); ok {
+								coinCalls = append(coinCalls, c)
+							}
+						}
+					} else if c, ok := ff.Fwd(call.Common().Args[0]).(*ssa.Call); ok {
+						coinCalls = append(coinCalls, c)
+					}
+				}
+				if len(coinCalls) == 0 {
+					full = false
+				}
+				for _, c := range coinCalls {
+					if core.CalleeName(c.Common()) != "NewCoin" || len(c.Common().Args) != 2 {
+						full = false
+						continue
+					}
+					okD, okA := false, false
+					for _, o := range ff.Origins(c.Common().Args[0]) {
+						if strings.HasSuffix(o.Path, "."+cp.amountField+".Denom") {
+							okD = true
+						}
+					}
+					for _, o := range ff.Origins(c.Common().Args[1]) {
+						if strings.HasSuffix(o.Path, "."+cp.amountField+".Amount") {
+							okA = true
+						}
+					}
+					if !okD || !okA {
+						full = false
+					}
+				}
+			}
 			if !full && len(dn) == 0 && len(whole) > 0 {
 				full = true
 				for _, w := range whole {
